@@ -20,6 +20,12 @@ CHECKS = {
         "Sums are exact fractions of the inputs; one known finding (default CU suppressed by the real-scale coverage test) is excluded by an input-only predicate.",
         "DESIGN.md section 5 C02",
     ),
+    "C03": (
+        "Hypothesis @given problems x utility ladders; closure invariants + reachability against the exact pocket-free envelope",
+        "Generated-input search (1.5k quick / 40k thorough) over stream sets x utility sets (none, 1-3 levels per side, Both, glide, inactive): per DI target the hot/cold duties sum to the exact Qh/Qc, are non-negative, sit beyond the exact pinch and below the exact pocket-free GCC at their supply level; Total-Process utilities equal the per-position, per-name sum over child zones.",
+        "Exact cascade and envelope are the reference; reachability is a necessary condition only (C04 decides the full profile); R6 finding excluded by an input-only predicate.",
+        "DESIGN.md section 5 C03",
+    ),
     "C20": (
         "Hypothesis @given over arrangement x label form x (NTU, c, passes): round-trip, bound, limit and symmetry oracles",
         "Generated-input search (12k quick / 600k thorough cases, 16 shards) against round-trip, counter-flow bound (independent formula), c=0 limit, monotonicity and LMTD bound/symmetry/refusal oracles; scalar float domain is sampled densely with 0/1 boosted, so a wrong formula or dispatch shows within seconds; absence is not proven.",
